@@ -71,6 +71,15 @@ func worker(a []string) {
 	}
 	debug.SetMemoryLimit(6 << 30)
 	c := fw.NewCtx(id, tier, seed(), i, n, ck.Budget[tier])
+	if ck.CaseLimit > 0 {
+		c.StartWatchdog(ck.CaseLimit, out)
+	}
+	if ck.Crumbs {
+		if err := fw.OpenCrumb(out + ".crumb"); err != nil {
+			fmt.Fprintln(os.Stderr, "crumb:", err)
+			os.Exit(2)
+		}
+	}
 	func() {
 		defer func() {
 			if r := recover(); r != nil {
@@ -103,6 +112,13 @@ func replay(id, file string, verbose bool) int {
 		return 2
 	}
 	c := fw.NewCtx(id, "replay", seed(), 0, 1, 0)
+	if ck.CaseLimit > 0 && v.Class == "unbounded" {
+		go func() {
+			time.Sleep(ck.CaseLimit)
+			fmt.Printf("REPLAY-VIOLATION key=%s class=unbounded\n", v.Key)
+			os.Exit(1)
+		}()
+	}
 	func() {
 		defer func() {
 			if r := recover(); r != nil {
@@ -168,6 +184,16 @@ func run(id, tier string) int {
 			lf.Close()
 			b, rerr := os.ReadFile(out)
 			var r fw.Result
+			if cr := fw.ReadCrumb(out + ".crumb"); ck.Crumbs && cr != nil && (err != nil || rerr != nil) {
+				// the worker died (fatal runtime error) while executing the case in the breadcrumb: a crash of the code under test
+				lb, _ := os.ReadFile(logf)
+				r = fw.Result{Check: id, Shard: i, Outcomes: map[string]int64{}, Counters: map[string]int64{}, VioCount: map[string]int64{}, Bounds: map[string]any{}}
+				r.Caps = []string{"worker-died"}
+				r.Violations = []fw.Violation{{Property: id, Class: "crash", Key: "crash", Detail: "worker process died while executing this case:\n" + tailStr(string(lb), 1500), Case: json.RawMessage(cr)}}
+				r.VioCount["crash"] = 1
+				results[i] = &r
+				return
+			}
 			if err != nil || rerr != nil || json.Unmarshal(b, &r) != nil {
 				lb, _ := os.ReadFile(logf)
 				tail := string(lb)
@@ -213,15 +239,37 @@ func run(id, tier string) int {
 	os.MkdirAll(filepath.Join(verifDir(), "replays"), 0o755)
 	unknown, known := []string{}, []string{}
 	knownSeen := map[int]bool{}
+	const maxReported = 8
+	suppressed := 0
 	for _, k := range keys {
 		v := byKey[k]
+		if len(unknown) >= maxReported {
+			isKnown := false
+			for _, f := range findings {
+				if f.Status == "known" && f.Property == id && f.KeyRegex != "" {
+					if ok, _ := regexp.MatchString("^(?:"+f.KeyRegex+")$", k); ok {
+						isKnown = true
+					}
+				}
+			}
+			if !isKnown {
+				suppressed++
+				unknown = append(unknown, k)
+				continue
+			}
+		}
 		file := filepath.Join(verifDir(), "replays", fmt.Sprintf("%s-%016x.json", id, fw.Hash64(k)))
 		b, _ := json.MarshalIndent(v, "", " ")
 		os.WriteFile(file, b, 0o644)
 		if ck.Replay != nil {
 			for r := 0; r < 5; r++ {
-				out, _ := exec.Command(self, "replay", id, file).CombinedOutput()
-				if !strings.Contains(string(out), "REPLAY-VIOLATION key="+k+" ") {
+				rcmd := exec.Command(self, "replay", id, file)
+				out, rerr := rcmd.CombinedOutput()
+				crashed := false
+				if ee, ok := rerr.(*exec.ExitError); ok && ee.ExitCode() != 1 && ee.ExitCode() != 2 {
+					crashed = true // the replay process itself died: the crash reproduces
+				}
+				if !strings.Contains(string(out), "REPLAY-VIOLATION key="+k+" ") && !(k == "crash" && crashed) {
 					fmt.Printf("HARNESS-NONDETERMINISM property=%s key=%s replay %d did not reproduce:\n%s\n", id, k, r, tailStr(string(out), 1500))
 					return 3
 				}
@@ -247,6 +295,9 @@ func run(id, tier string) int {
 			fmt.Printf("  key=%s class=%s cases=%d\n  %s\n", k, v.Class, m.VioCount[k], tailStr(v.Detail, 1200))
 		}
 	}
+	if suppressed > 0 {
+		fmt.Printf("  … and %d more distinct failing keys (not individually replayed)\n", suppressed)
+	}
 	for i, f := range findings {
 		if knownSeen[i] {
 			fmt.Printf("KNOWN-FINDING: property=%s %s\n", id, f.What)
@@ -261,19 +312,19 @@ func run(id, tier string) int {
 
 	// evidence
 	cov := map[string]any{
-		"evaluations":         m.Evaluations,
-		"distinct_nontrivial": m.Nontrivial,
-		"rule":                ck.Rule,
-		"samples":             m.Samples,
-		"exhaustive":          m.Exhaustive,
-		"caps_hit":            append([]string{}, m.Caps...),
-		"bounds":              m.Bounds,
-		"outcomes":            m.Outcomes,
-		"distinct_outcomes":   len(m.Outcomes),
-		"counters":            m.Counters,
-		"shards":              m.Shards,
+		"evaluations":             m.Evaluations,
+		"distinct_nontrivial":     m.Nontrivial,
+		"rule":                    ck.Rule,
+		"samples":                 m.Samples,
+		"exhaustive":              m.Exhaustive,
+		"caps_hit":                append([]string{}, m.Caps...),
+		"bounds":                  m.Bounds,
+		"outcomes":                m.Outcomes,
+		"distinct_outcomes":       len(m.Outcomes),
+		"counters":                m.Counters,
+		"shards":                  m.Shards,
 		"known_findings_observed": known,
-		"violation_keys":      unknown,
+		"violation_keys":          unknown,
 	}
 	if ck.Level == "model_checking" {
 		cov["states"] = m.States
